@@ -14,7 +14,7 @@
    Still false of the code (witnesses, `_refuted`): guardedWriter's check-then-send races with finish() ("send on closed channel" re-raised); ctx done =>
    DeadlineExceeded fails when the select also sees the closed output; a third reducer write blocks for ever. *)
 From Coq Require Import Permutation.
-From God Require Import Base.Prelude C07.Model C07.ProofsA C07.ProofsB C07.ProofsC C07.ProofsD C07.ProofsE C07.ProofsF C07.Proofs C07.Spec C07.Tests.
+From God Require Import Base.Prelude C07.Model C07.ProofsA C07.ProofsB C07.ProofsC C07.ProofsD C07.ProofsE C07.ProofsF C07.ProofsG C07.Proofs C07.Spec C07.Tests.
 
 (* ---- conservation: nothing is duplicated or invented, for every schedule ---- *)
 Theorem c07_conservation : forall cf s, reachable cf s ->
@@ -120,6 +120,31 @@ Proof.
   - exact (cancel_returns_first_error cf s o R Hc Hw Hn Hd e rest E).
 Qed.
 Print Assumptions c07_cancel_result.
+
+(* ---- ... and for WRITING reducers, every schedule: once a cancel has recorded its error (retErr.Set - the first
+   thing cancel does, long before it closes done/output: it may still be inside drain(source) while the generator
+   produces) and the caller has not yet loaded it, the call can no longer return a reducer value or
+   ErrReduceNoOutput, whatever an early-stopping reducer hands over in that window: it returns that error (or
+   DeadlineExceeded through the ctx arm, or panics: a recorded panic / the written-twice panic). ---- *)
+Theorem c07_cancel_beats_value : forall cf s ls s' e o, reachable cf s -> reterr s = Some e ->
+  (c s = CSelect \/ exists got, c s = COut got) -> run cf s ls = Some s' -> caller_outcome s' = Some o ->
+  o = OErr e \/ o = OErr EDeadline \/ (exists p, o = OPanic p) \/ o = OPanicTwice.
+Proof. exact cancel_beats_value. Qed.
+Print Assumptions c07_cancel_beats_value.
+
+Theorem c07_cancel_never_value : forall cf s ls s' e o, reachable cf s -> reterr s = Some e ->
+  (c s = CSelect \/ exists got, c s = COut got) -> run cf s ls = Some s' -> caller_outcome s' = Some o ->
+  (forall k, o <> ORet k) /\ o <> ONoOutput.
+Proof. exact cancel_beats_value_no. Qed.
+Print Assumptions c07_cancel_never_value.
+
+(* the racing interleaving exists in the LTS: value 2 handed over while the canceller is inside its drain *)
+Example c07_cancel_race_schedule : exists cf ls1 ls2 s s',
+  run cf (init cf) ls1 = Some s /\
+  c s = COut (Some 2) /\ reterr s = Some (EUser 3) /\ conce s = ORunning /\ fin s = false /\
+  g s = GSend [8] /\ nth_error (ws s) 0 = Some (7, WCancel CcDrain (EUser 3) []) /\
+  run cf s ls2 = Some s' /\ final s' = true /\ c s' = CDone (OErr (EUser 3)).
+Proof. destruct w8_cancel_beats_racing_value as [s [s' H]]. exists cf_w8, sched_w8a, sched_w8b, s, s'. exact H. Qed.
 
 (* variants by instantiation: MapReduceVoid (reducer cannot write; ErrReduceNoOutput |-> nil) and Finish (items =
    the functions, a failing function = a mapper that cancels, reducer returns at once, workers = number of items):
